@@ -201,6 +201,7 @@ func ZZH14cCompile() {
 	g, _, prog := GenText(sym.Param("trivia", 1), 1, false)
 	_ = g
 	d0 := DigestOf(prog, false)
+	sym.FreezeGlobals()
 	sym.Freeze("tree", prog)
 	compact1 := compiler.New().Compile(prog).Code
 	semi := sym.Bool("semi")
@@ -249,7 +250,7 @@ func ZZH14cCompile() {
 }
 
 func concurrentCompilesAgree(prog *ast.Program, semi bool, wantCode, wantMap string) bool {
-	const workers, rounds = 16, 40
+	const workers, rounds = 16, 1500
 	bad := make([]bool, workers)
 	done := make(chan int, workers)
 	for w := 0; w < workers; w++ {
